@@ -493,11 +493,11 @@ def judge (s : St) (k : Kind) (count q h prio vt : Nat) : St :=
   | .cert => judgeCert s count q h prio vt
 
 /-- `Voter.removeMarkedBlock` (called by `Server.commit` when the insert of the committed block fails);
-    `none` = the real code dereferences a nil `nextMarked` -/
-def removeMarkedBlock (s : St) (h : Nat) : Option St :=
+    nothing marked = nothing to do (since /repo 2371db7; it used to dereference the nil `nextMarked`) -/
+def removeMarkedBlock (s : St) (h : Nat) : St :=
   match s.v.nextMarked with
-  | none => none
-  | some m => if m.hash = h then some { s with v := { s.v with nextMarked := none, nextVoted := none } } else some s
+  | none => s
+  | some m => if m.hash = h then { s with v := { s.v with nextMarked := none, nextVoted := none } } else s
 
 /-- `Voter.existHashOverVotesThreshold` (read-only): do the prevotes or the precommits counted in the current context,
     summed over all hashes (uint32), reach the two thresholds? -/
@@ -645,10 +645,7 @@ def step (s : St) : Ev → St × Outcome
     else if pr.2 = .panic then (restart res.1, .done .panic)
     else (res.1, .done pr.2)
   | .unmark h =>
-    let s0 : St := { s with g := { s.g with puts := 0, out := [] } }
-    match removeMarkedBlock s0 h with
-    | none => (restart (finish s0).1, .done .panic)
-    | some s1 => ((finish s1).1, .done .nil)
+    ((finish (removeMarkedBlock { s with g := { s.g with puts := 0, out := [] } } h)).1, .done .nil)
   | .crash => (restart { s with g := { s.g with out := [] } }, .done .nil)
   | .arm n after => ({ s with g := { s.g with armed := some (n, after), out := [] } }, .done .nil)
   | .env e => ({ s with g := { s.g with out := [] }, env := e }, .done .nil)
